@@ -399,9 +399,11 @@ def gen_universe(rng: random.Random, saturated: bool = False) -> World:
                     break
             spec = (rng.choice(NAMES[:2] if saturated else NAMES), rng.choice(SCHEMAS), rng.choice(ALIASES), tuple(cols))
         specs.append(spec)
-        t = w.table(spec[0], schema=spec[1], alias=spec[2], ctor_cols=rng.random() < 0.5)
+        # notes / comments: near-twins that differ in nothing but a note are NOT equal
+        t = w.table(spec[0], schema=spec[1], alias=spec[2], ctor_cols=rng.random() < 0.5,
+                    note=rng.choice(["", "", "tn", "other note"]), comment=rng.choice([None, None, "tc"]))
         for cn, ct in spec[3]:
-            c = w.column(cn, ct, pk=(cn == "id" and rng.random() < 0.5))
+            c = w.column(cn, ct, pk=(cn == "id" and rng.random() < 0.5), note=rng.choice(["", "", "", "cn"]))
             w.attach_col(t, c)
         tables.append(t)
     # loose columns
@@ -424,7 +426,8 @@ def gen_universe(rng: random.Random, saturated: bool = False) -> World:
             subs = [["col", rng.choice(allcols)]]
             if own and rng.random() < 0.5:
                 subs.append(["col", rng.choice(own)])
-        i = w.index(subs, name=rng.choice([None, None, "ix"]), unique=rng.random() < 0.3, pk=rng.random() < 0.1)
+        i = w.index(subs, name=rng.choice([None, None, "ix"]), unique=rng.random() < 0.3, pk=rng.random() < 0.1,
+                    note=rng.choice(["", "", "in"]))
         if all(s[0] != "col" or w.m[s[1]]["table"] == t for s in subs) and rng.random() < 0.5:
             w.attach_idx(t, i)
     # enums
